@@ -793,6 +793,10 @@ METHOD_PURE = {"sum", "std", "mean", "min", "max", "round", "any", "all", "flatt
                "agg", "transform", "head", "tail", "rename", "assign", "merge", "join_", "stack", "unstack", "pivot", "value_counts", "nunique", "duplicated", "get_loc", "isnull", "notnull", "dropna", "fillna", "map"}
 
 
+NP_METHOD_FORMS = {"sum", "mean", "min", "max", "any", "all", "prod", "argmin", "argmax", "argsort", "nonzero", "cumsum", "std",
+                   "clip", "take", "repeat", "squeeze", "ravel", "transpose", "round"}
+
+
 def call_method(ev, recv, name, args, kwargs, node):
     from .evalr import Lst, Dct, Obj, storage_root, RaiseSignal
 
@@ -923,7 +927,13 @@ def call_method(ev, recv, name, args, kwargs, node):
     if name == "flatten":
         return App("flatten", (v,))
     if name == "reshape":
-        return App("reshape", (v,) + tuple(as_v(ev, a) for a in args))
+        if len(args) > 1:
+            # x.reshape(a, b) is np.reshape(x, (a, b))
+            return np_call(ev, "reshape", [v, Tup([as_v(ev, a) for a in args])], {}, node)
+        return np_call(ev, "reshape", [v] + list(args), dict(kwargs), node)
+    if name in NP_METHOD_FORMS and isinstance(v, V) and not (isinstance(v, Sym) and ("frame" in v.tags or "series" in v.tags)):
+        # ndarray method forms of numpy functions: one canonical term per operation
+        return np_call(ev, name, [v] + list(args), dict(kwargs), node)
     if name == "ppf" or name == "cdf":
         return App(name, (v,) + tuple(as_v(ev, a) for a in args), _kw(ev, kwargs))
     if name in METHOD_PURE:
